@@ -1,0 +1,21 @@
+//go:build verif
+
+package larking
+
+// This file is compiled only with the "verif" build tag. It adds an accessor
+// used by the external verification harness and changes no behaviour.
+
+// VerifDelRule applies path.delRule for each named method to a copy of the
+// published routing state, as state.removeHandler does for a method that lost
+// its last handler, publishes the copy and returns delRule's results.
+func (m *Mux) VerifDelRule(names ...string) []bool {
+	m.mu.Lock()
+	defer m.mu.Unlock()
+	s := m.loadState().clone()
+	oks := make([]bool, len(names))
+	for i, name := range names {
+		oks[i] = s.path.delRule(name)
+	}
+	m.storeState(s)
+	return oks
+}
